@@ -653,6 +653,14 @@ def _footprint(ex, op, pre, pre_uid):
             return 2, root_uid[2]
         return m.ws_of[h], str(ex.uid[h])
 
+    # a change of a Data entity may clear the statistics cached under ITS OWN type
+    own_type = None
+    if len(op) > 1 and isinstance(op[1], int) and op[1] in pre.nodes and pre.nodes[op[1]].kind == "data" and op[1] in m.nodes:
+        try:
+            own_type = str(ex.ent(op[1]).entity_type.uid)
+        except Exception:  # pylint: disable=broad-except
+            own_type = None
+    allow["own_type"] = own_type
     if name in ("rename", "flag", "values", "vertices", "meta"):
         add(pre.ws_of[op[1]], op[1], ALL)
     elif name in ("mk_group", "mk_obj"):
@@ -706,6 +714,8 @@ def clauses_c09(ex, obs) -> list:
                 elif key[0] == "type":
                     if comps <= {"created", "deleted"}:
                         continue  # types it introduces or stops using
+                    if comps == {"dsets"} and allow.get("own_type") == key[2]:
+                        continue  # statistics cache of the target's own type
                     what = f"type:{key[1]}:" + "+".join(sorted(comps))
                 elif key[0] == "node":
                     uid = key[2]
